@@ -341,6 +341,9 @@ text::text(const text &tx)
 }
 text & text::operator= (const text & tx)
 {
+	if (this == &tx) {
+		return *this;
+	}
 	mpt_text_fini(this);
 	mpt_text_init(this, &tx);
 	return *this;
